@@ -224,7 +224,7 @@ fn trunc_unknown_form<T: desert_core::BinaryDeserializer>(b: &Buf) {
 }
 
 proof! {
-    //@ props=C08,C12 tier=thorough bounds=unknown-length-form;E=u16;n=2;every-cut-point;targets:Vec,LinkedList,[E;2] cap=900
+    //@ props=C08,C12 tier=off bounds=unknown-length-form;E=u16;n=2;every-cut-point;targets:Vec,LinkedList,[E;2] cap=900
     fn c08_trunc_unknown_form_u16() unwind(10) {
         let xs = elems3::<u16>();
         let b = unknown_form(&xs, 2);
